@@ -49,8 +49,31 @@ func (o *Obs) add(e Ev) {
 	o.mu.Unlock()
 }
 
-const cfgHash = "HASH-OF-CURRENT-CONFIG"
+// The coordinator's configuration comes from a REAL prom.ConfigManager that has been through two reloads:
+// an earlier version differing from the current one only in external labels (which the hash ignores),
+// then the current one. Shards that report another hash must be sent the CURRENT raw content.
+const rawConfigOld = "global:\n  external_labels:\n    replica: before-the-last-reload\nscrape_configs:\n- job_name: job\n- job_name: job2\n"
 const rawConfig = "global: {}\nscrape_configs:\n- job_name: job\n- job_name: job2\n"
+
+var (
+	cfgOnce sync.Once
+	cfgMgr  *prom.ConfigManager
+	cfgHash string
+)
+
+func configManager() *prom.ConfigManager {
+	cfgOnce.Do(func() {
+		cfgMgr = prom.NewConfigManager()
+		if err := cfgMgr.ReloadFromRaw([]byte(rawConfigOld)); err != nil {
+			panic("harness: " + err.Error())
+		}
+		if err := cfgMgr.ReloadFromRaw([]byte(rawConfig)); err != nil {
+			panic("harness: " + err.Error())
+		}
+		cfgHash = cfgMgr.ConfigInfo().ConfigHash
+	})
+	return cfgMgr
+}
 
 type gateRM struct {
 	ms      []shard.Manager
@@ -217,6 +240,7 @@ var quietLog = func() *logrus.Logger { l := logrus.New(); l.SetOutput(io.Discard
 
 // Exec runs the case's cycles through the real coordinator and returns what was observed.
 func Exec(c *Case, rseed int64) *Obs {
+	configManager() // fixes cfgHash before any scripted sidecar reports it
 	obs := &Obs{}
 	rand.Seed(rseed)
 	active := map[uint64]*discovery.SDTargets{}
@@ -251,7 +275,7 @@ func Exec(c *Case, rseed int64) *Obs {
 		MaxHeadSeries: c.Opt.MaxHead, MaxProcessSeries: c.Opt.MaxProc, MaxShard: c.Opt.Max, MinShard: c.Opt.Min,
 		MaxIdleTime: time.Duration(c.Opt.IdleMin) * time.Minute, DisableAlleviate: c.Opt.DisableAlleviate,
 	}, g, func() *prom.ConfigInfo {
-		return &prom.ConfigInfo{ConfigHash: cfgHash, RawContent: []byte(rawConfig), ExtraConfig: &prom.ExtraConfig{}}
+		return configManager().ConfigInfo()
 	}, func(h uint64) *target.ScrapeStatus {
 		exMu.Lock()
 		defer exMu.Unlock()
